@@ -239,3 +239,17 @@ Require Copia.Proofs.TieReconcile.
 Theorem C06_model_is_translation_of_source : TieReconcile.reconcile_model_is_translation.
 Proof. exact TieReconcile.reconcile_model_is_translation_holds. Qed.
 Print Assumptions C06_model_is_translation_of_source.
+
+(** The bisync model's OWN per-path decision ([rpath], on digests of regular files, [None] = Noop) is the image of the
+    function generated from the current source of reconcile.rs `reconcile_path` (Proofs/TieBisync.v), and its [apply]
+    is the effect list generated from the current source of bidir.rs `apply`, run on the working state
+    (Proofs/TieBisyncApply.v; premises: no failure so far, a conflict name differs from its path, the scanned files
+    are still in the working trees - [tie_apply_vanished_source] shows the one place where the hand-written model and
+    the source part ways without the last one). *)
+Require Copia.Proofs.TieBisync Copia.Proofs.TieBisyncApply.
+Theorem C06_decision_is_translation_of_source : TieBisync.bisync_decision_is_translation.
+Proof. exact TieBisync.bisync_decision_is_translation_holds. Qed.
+Print Assumptions C06_decision_is_translation_of_source.
+Theorem C06_apply_is_translation_of_source : TieBisyncApply.bisync_apply_is_translation.
+Proof. exact TieBisyncApply.bisync_apply_is_translation_holds. Qed.
+Print Assumptions C06_apply_is_translation_of_source.
